@@ -42,6 +42,7 @@ def run(tier):
     # the same refusals in the library's DEFAULT failure configuration (no exceptions, no custom handler): the process ends
     import abortcommon
     abortcommon.judge(chk, wd, "C02")
+    abortcommon.judge(chk, wd, "C02", driver="nocc_driver")
     chk.count(evaluations=total, distinct=len(combos), traces=1)
     chk.sample({"program": mine[0]["text"], "verdict": mine[0]["verdict"]})
     chk.cov["exhaustive"] = True
